@@ -949,15 +949,21 @@ def generate(rng, tier):
         cases.append(c)
     # WIDE registers through the direct exact-expectation route (oracle only): product states on 17-20 qubits, operator terms on
     # the first, the last and scattered qubits (a bit trick covering 16 bits / an index table of 2^16 entries shows beyond them)
-    for _ in range(6 if big else 2):
+    # (every other case is a purely Z-type operator – the shape a diagonal fast path is written for –, and in every case the early
+    #  qubits that carry a term are not in an eigenstate with eigenvalue +1, so ignoring the factor is visible)
+    for i_w in range(6 if big else 3):
         n = rng.choice([17, 18, 20] if big else [17, 18])
-        state = "".join(rng.choice("01ab") for _ in range(n))
+        state = [rng.choice("01ab") for _ in range(n)]
+        all_z = i_w % 2 == 0
         terms = []
         for _t in range(rng.randrange(2, 5)):
-            qs = sorted(set([rng.choice([0, 1, n - 17, n - 1])] + rng.sample(range(n), rng.randrange(0, 3))))
-            ztype = rng.random() < 0.8
+            early = rng.choice([0, 1, n - 17])
+            qs = sorted(set([early, rng.choice([early, n - 1])] + rng.sample(range(n), rng.randrange(0, 3))))
+            if state[early] == "0":
+                state[early] = rng.choice("1ab")
+            ztype = all_z or rng.random() < 0.7
             terms.append({"ops": [[q, "Z" if ztype or rng.random() < 0.5 else "X"] for q in qs], "c": [rat(Fraction(rng.randrange(-8, 9) or 3, 4)), 0]})
-        cases.append({"kind": "wide_exact", "state": state, "operator": terms})
+        cases.append({"kind": "wide_exact", "state": "".join(state), "operator": terms})
     return cases
 
 
